@@ -11,25 +11,45 @@ pub fn run_engine_s(rep: &mut Report, thorough: bool, property: &str) {
 /// failure (deadlock, panic, schedule-dependent result) is attributed to `property`
 pub fn run_engine_s_only(rep: &mut Report, thorough: bool, property: &str, only: Option<&str>) {
     let exe = format!("{}/engine_s/target/release/engine_s", verif_root());
-    let mut cmd = std::process::Command::new(&exe);
-    cmd.arg(if thorough { "thorough" } else { "quick" });
-    if let Some(o) = only {
-        cmd.args(["--only", o]);
-    }
-    let out = cmd.output();
-    let out = match out {
-        Ok(o) => o,
-        Err(e) => {
-            eprintln!("MACHINERY: cannot run engine S ({}): {}", exe, e);
-            std::process::exit(2);
+    // The exploration is deterministic for a given engine binary (which embeds /repo's sources) and
+    // arguments; C08, C16 and C18 all need it, so its result is cached under the build directory, keyed by
+    // the digest of the binary and the arguments (a changed /repo gives a new binary, hence a new key).
+    let bin = std::fs::read(&exe).unwrap_or_else(|e| {
+        eprintln!("MACHINERY: cannot read engine S binary ({}): {}", exe, e);
+        std::process::exit(2);
+    });
+    let key = crate::world::sha_hex(format!("{}|{}|{:?}", crate::world::sha_hex(&bin), thorough, only).as_bytes());
+    let cache_dir = format!("{}/engine_s/target/result-cache", verif_root());
+    let cache_file = format!("{}/{}.json", cache_dir, &key[..24]);
+    let reuse = std::env::var("MV_ENGINE_S_NO_CACHE").is_err();
+    let cached: Option<Value> = if reuse { std::fs::read_to_string(&cache_file).ok().and_then(|s| serde_json::from_str(&s).ok()) } else { None };
+    let reused = cached.is_some();
+    let r: Value = match cached {
+        Some(v) => v,
+        None => {
+            let mut cmd = std::process::Command::new(&exe);
+            cmd.arg(if thorough { "thorough" } else { "quick" });
+            if let Some(o) = only {
+                cmd.args(["--only", o]);
+            }
+            let out = match cmd.output() {
+                Ok(o) => o,
+                Err(e) => {
+                    eprintln!("MACHINERY: cannot run engine S ({}): {}", exe, e);
+                    std::process::exit(2);
+                }
+            };
+            let s = String::from_utf8_lossy(&out.stdout);
+            let Some(line) = s.lines().find(|l| l.starts_with("RESULT ")) else {
+                eprintln!("MACHINERY: engine S produced no result\nstdout: {}\nstderr: {}", s, String::from_utf8_lossy(&out.stderr));
+                std::process::exit(2);
+            };
+            let v: Value = serde_json::from_str(&line[7..]).expect("engine S result is JSON");
+            let _ = std::fs::create_dir_all(&cache_dir);
+            let _ = std::fs::write(&cache_file, v.to_string());
+            v
         }
     };
-    let s = String::from_utf8_lossy(&out.stdout);
-    let Some(line) = s.lines().find(|l| l.starts_with("RESULT ")) else {
-        eprintln!("MACHINERY: engine S produced no result\nstdout: {}\nstderr: {}", s, String::from_utf8_lossy(&out.stderr));
-        std::process::exit(2);
-    };
-    let r: Value = serde_json::from_str(&line[7..]).expect("engine S result is JSON");
     let schedules = r["schedules"].as_u64().unwrap_or(0);
     rep.add_u64("evaluations", schedules);
     rep.add_u64("traces_validated_against_impl", schedules);
@@ -41,6 +61,7 @@ pub fn run_engine_s_only(rep: &mut Report, thorough: bool, property: &str, only:
         "schedules": schedules,
         "bodies_not_complete_within_bound": incomplete,
         "wall_s": r["wall_s"],
+        "result_reused_from_an_identical_run": reused,
         "what": "every schedule (preemption-bounded DFS over lock / condvar / spawn / join points; items of a parallel section handed to W worker tasks through a shared queue) of ONE operation executed in a prepared state, on melda.rs compiled with its locks and parallel iterators routed through shuttle; oracles: no deadlock, no panic, result and view equal to the sequential run",
     }));
     rep.push_sample(json!({"engine_s_body": bodies.first()}));
